@@ -8,7 +8,9 @@ def check(rep):
     ctx = Ctx(rep)
     ER.rule_position_slice(ctx)
     ER.rule_hash_pure(ctx, rid="C10.POSITION-FROM-KEY")
-    ER.rule_choice_search(ctx, rid="C10.MONOTONE-LOCATE", parts=("locate", "prefix"))
+    from . import choicerules as CR
+    if not CR.report(ctx, "C10", facets=("interior",)):
+        ER.rule_choice_search(ctx, rid="C10.MONOTONE-LOCATE", parts=("locate", "prefix"))
     ER.rule_retained_arguments(ctx, rid="C10.NO-RETAINED-ARGUMENT", modules={"binning/binning.py"})
     PR.rule_compiles(ctx, rid="C10.SHAPE-COMPILES", strict=False)
     PR.rule_key(ctx, rid="C10.ONE-KEY", mode="position")
